@@ -114,7 +114,10 @@ protected:
       c.error_fired = true;
       return base::error;
     }
-    if (r == base::ok && from_next != from_end)
+    // only when the simulator itself cut the input short is an `ok` for the shortened input a
+    // `partial` for the whole; otherwise the real facet's answer is passed on unchanged (libstdc++
+    // answers `ok` without consuming anything when the output range is empty)
+    if (r == base::ok && fe != from_end && from_next != from_end)
       r = base::partial;
     if (r == base::partial)
     {
